@@ -34,12 +34,12 @@ theorem dp_eq_iana (cls : Cls) (cp : Nat) (h : cp < 0x110000) :
   have hl : iana63 cp ≠ .notListed := fun e => (iana_lists_unicode cp).mp e h
   cases cls with
   | identifier =>
-    have := SF.all_at id _ dp_iana_check_id cp
-    simp only [SF.zip_at, ← derivedProp_sf, ← iana63_at, id, hl, if_false] at this
+    have := SF.all_zip_at _ _ _ dp_iana_check_id cp
+    simp only [← derivedProp_sf, ← iana63_at, hl, if_false] at this
     simpa [Cls.isId] using this
   | freeform =>
-    have := SF.all_at id _ dp_iana_check_ff cp
-    simp only [SF.zip_at, ← derivedProp_sf, ← iana63_at, id, hl, if_false] at this
+    have := SF.all_zip_at _ _ _ dp_iana_check_ff cp
+    simp only [← derivedProp_sf, ← iana63_at, hl, if_false] at this
     simpa [Cls.isId] using this
 
 /-- …and the RFC 8264 §8 decision list, in its fixed order, over the Unicode 6.3.0 character data
@@ -49,13 +49,13 @@ theorem dp_eq_rfc8264 (cls : Cls) (cp : Nat) (h : cp < 0x110000) :
     derivedProp cls cp = Spec.derived hasCompat (Cls.isId cls) cp := by
   cases cls with
   | identifier =>
-    have := SF.all_at id _ dp_rfc_check_id cp
-    simp only [SF.zip_at, ← derivedProp_sf, ← rfc_derived_sf, inUnicode_at, id, h, decide_true,
+    have := SF.all_zip_at _ _ _ dp_rfc_check_id cp
+    simp only [SF.zip_at, ← derivedProp_sf, ← rfc_derived_sf, inUnicode_at, h, decide_true,
       Bool.not_true, Bool.false_or, decide_eq_true_eq] at this
     simpa [Cls.isId] using this
   | freeform =>
-    have := SF.all_at id _ dp_rfc_check_ff cp
-    simp only [SF.zip_at, ← derivedProp_sf, ← rfc_derived_sf, inUnicode_at, id, h, decide_true,
+    have := SF.all_zip_at _ _ _ dp_rfc_check_ff cp
+    simp only [SF.zip_at, ← derivedProp_sf, ← rfc_derived_sf, inUnicode_at, h, decide_true,
       Bool.not_true, Bool.false_or, decide_eq_true_eq] at this
     simpa [Cls.isId] using this
 
@@ -65,8 +65,8 @@ theorem id_vs_free (cp : Nat) :
     (derivedProp .identifier cp = .specClassDis ∧ derivedProp .freeform cp = .specClassPval) ∨
     (derivedProp .identifier cp = derivedProp .freeform cp ∧
       derivedProp .identifier cp ≠ .specClassDis ∧ derivedProp .identifier cp ≠ .specClassPval) := by
-  have := SF.all_at id _ id_vs_free_check cp
-  simp only [SF.zip_at, ← derivedProp_sf, id] at this
+  have := SF.all_zip_at _ _ _ id_vs_free_check cp
+  simp only [← derivedProp_sf] at this
   revert this
   cases derivedProp .identifier cp <;> cases derivedProp .freeform cp <;> simp
 
@@ -75,12 +75,12 @@ theorem non_scalar_invalid (cls : Cls) (cp : Nat) (h : isScalar cp = false) :
     derivedProp cls cp = .disallowed := by
   cases cls with
   | identifier =>
-    have := SF.all_at id _ non_scalar_check_id cp
-    simp only [SF.zip_at, ← derivedProp_sf, nonScalar_at, h, id] at this
+    have := SF.all_zip_at _ _ _ non_scalar_check_id cp
+    simp only [← derivedProp_sf, nonScalar_at, h] at this
     simpa using this
   | freeform =>
-    have := SF.all_at id _ non_scalar_check_ff cp
-    simp only [SF.zip_at, ← derivedProp_sf, nonScalar_at, h, id] at this
+    have := SF.all_zip_at _ _ _ non_scalar_check_ff cp
+    simp only [← derivedProp_sf, nonScalar_at, h] at this
     simpa using this
 
 /-- every 32-bit value (indeed every natural number) has exactly one derived property in each class:
